@@ -10,7 +10,9 @@ import (
 	"go/types"
 	"os"
 	"path/filepath"
+	"regexp"
 	"sort"
+	"strconv"
 	"strings"
 
 	"golang.org/x/tools/go/packages"
@@ -29,6 +31,7 @@ func init() {
 		altOut = filepath.Join(repoRoot, ".pvc-out")
 	}
 }
+
 const repoModule = "github.com/cockroachdb/pebble"
 
 type CExpr struct {
@@ -48,33 +51,33 @@ type Contract struct {
 	Body    *ast.BlockStmt
 	FuncTyp *ast.FuncType
 
-	Requires []CExpr
-	Ensures  []CExpr
-	Assumes  []CExpr
-	LoopInv  map[int][]CExpr
-	LoopDec  map[int]CExpr
-	Unroll   map[int]int
-	OnCall   []CExpr
-	OnAssign []CExpr
-	RetExpr  map[*Directive]CExpr
-	BefCall  []CExpr
+	Requires   []CExpr
+	Ensures    []CExpr
+	Assumes    []CExpr
+	LoopInv    map[int][]CExpr
+	LoopDec    map[int]CExpr
+	Unroll     map[int]int
+	OnCall     []CExpr
+	OnAssign   []CExpr
+	RetExpr    map[*Directive]CExpr
+	BefCall    []CExpr
 	HavocCalls []string
 	FrameCalls []string
 	AppendLike []string
 	Clobbers   map[string][]CExpr
-	BefRet   []CExpr
-	Assigns  []CExpr
-	NonNil   []CExpr
-	Ghost    []*GhostVar
-	Results  []*types.Var // variables that denote the results in ensures clauses
-	Loops    []ast.Stmt   // loops of the body in pre-order (not descending into func literals)
-	Callback map[string]*Directive
-	NoPanic  bool
-	NoWrap   bool
-	Opaque   bool
-	Trusted  bool
-	Abstract bool
-	Errs     []string
+	BefRet     []CExpr
+	Assigns    []CExpr
+	NonNil     []CExpr
+	Ghost      []*GhostVar
+	Results    []*types.Var // variables that denote the results in ensures clauses
+	Loops      []ast.Stmt   // loops of the body in pre-order (not descending into func literals)
+	Callback   map[string]*Directive
+	NoPanic    bool
+	NoWrap     bool
+	Opaque     bool
+	Trusted    bool
+	Abstract   bool
+	Errs       []string
 }
 
 type GhostVar struct {
@@ -731,6 +734,16 @@ func (w *World) resolve(c *Contract, si *sigInfo) error {
 			if len(sites) == 0 {
 				return fmt.Errorf("%s:%d: missing: no call %q%s in %s", b.File, d.Line, d.CallText, ordSuffix(d.CallOrd), b.Key())
 			}
+			// pvc_arg(k) stands for the k-th argument expression of the call (its source
+			// text, evaluated in the caller's scope just before the call). All matching
+			// sites must then agree on that text, or the directive must name one site.
+			if strings.Contains(d.Expr, "pvc_arg(") {
+				ex, err := substArgs(w, d, sites)
+				if err != nil {
+					return fmt.Errorf("%s:%d: %v", b.File, d.Line, err)
+				}
+				d.Expr = ex
+			}
 			ce, err := w.check(c, sites[0].Pos(), d, d.Expr, subst)
 			if err != nil {
 				return err
@@ -848,4 +861,28 @@ func (w *World) callSites(c *Contract, d *Directive) []*ast.CallExpr {
 		return true
 	})
 	return out
+}
+
+var reArg = regexp.MustCompile(`pvc_arg\((\d+)\)`)
+
+func substArgs(w *World, d *Directive, sites []*ast.CallExpr) (string, error) {
+	var ferr error
+	out := reArg.ReplaceAllStringFunc(d.Expr, func(m string) string {
+		k, _ := strconv.Atoi(reArg.FindStringSubmatch(m)[1])
+		text := ""
+		for i, site := range sites {
+			if k >= len(site.Args) {
+				ferr = fmt.Errorf("contract drift: pvc_arg(%d): call %q has %d arguments", k, d.CallText, len(site.Args))
+				return m
+			}
+			t := exprText(w.Fset, site.Args[k])
+			if i > 0 && t != text {
+				ferr = fmt.Errorf("pvc_arg(%d) is ambiguous: call %q occurs with different arguments (name one site with #n)", k, d.CallText)
+				return m
+			}
+			text = t
+		}
+		return "(" + text + ")"
+	})
+	return out, ferr
 }
